@@ -18,7 +18,7 @@ pub mod c05;
 pub mod c08;
 #[cfg(feature = "c09")]
 pub mod c09;
-#[cfg(feature = "c10")]
+#[cfg(any(feature = "c10", feature = "c05"))]
 pub mod c10;
 #[cfg(any(feature = "c11", feature = "c08"))]
 pub mod c11;
